@@ -647,7 +647,7 @@ fn main() {
     let mut total_sched = 0u64;
     let mut total_points = 0u64;
     let max_sched: u64 = if thorough { 200_000 } else { 20_000 };
-    let max_secs: f64 = if thorough { 240.0 } else { 20.0 };
+    let max_secs: f64 = if thorough { 120.0 } else { 12.0 };
     let branch_cap = 3000usize;
     struct Report {
         lines: Vec<String>,
